@@ -16,27 +16,49 @@ func fail(cc *kit.Case, sig, format string, args ...any) {
 	cc.Fail(sig, "[sig="+sig+"] "+format, args...)
 }
 
-// off reports whether the exclusion of a known defect class is switched off (C13_NOEXCL=K1,K6,... or "all"):
-// used to validate a proposed patch on a scratch copy of the repository, never by the registered check.
+// fixedClasses: defect classes repaired in the repository (see known_findings_C13.json for the commits).
+// Their exclusions are off by default: the classes are generated and checked like everything else and
+// their witnesses are plain regression replays.
+var fixedClasses = map[string]bool{
+	"K1": true, "K2": true, "K3": true, "K5": true, "K6": true, "K8": true, "K9": true, "K10": true, "K11": true, "K12": true,
+	"J3": true, "J4": true, "J5": true, "J6": true, "J10": true, "J11": true,
+	"T2": true, "T5": true, "T6": true, "T9": true,
+}
+
+func envList(name string) (all bool, set map[string]bool) {
+	v := os.Getenv(name)
+	set = map[string]bool{}
+	for _, x := range strings.Split(v, ",") {
+		if x = strings.TrimSpace(x); x != "" {
+			set[x] = true
+		}
+	}
+	return set["all"], set
+}
+
+// off reports whether the exclusion of a defect class is switched off.
+//
+//	default            known classes excluded, fixed classes not excluded
+//	C13_EXCLUDE=K1,J3  exclude these fixed classes again (all: every fixed class): for running against an older tree
+//	C13_NOEXCL=K7,T1   do not exclude these known classes (all: none at all): for validating a patch on a scratch tree
 func off(class string) bool {
-	v := os.Getenv("C13_NOEXCL")
-	if v == "" {
-		return false
-	}
-	if v == "all" {
-		return true
-	}
 	id := class
 	if i := strings.IndexByte(class, ' '); i > 0 {
 		id = class[:i]
 	}
-	for _, x := range strings.Split(v, ",") {
-		if x == id {
-			return true
-		}
+	if fixedClasses[id] {
+		all, set := envList("C13_EXCLUDE")
+		return !(all || set[id])
 	}
-	return false
+	all, set := envList("C13_NOEXCL")
+	return all || set[id]
 }
+
+// Language limits (not defects of the formatter): values that TICKscript cannot write down at the place they are needed.
+const (
+	classL1 = "L1 language limit: a string value that ends in a backslash and contains ''' has no literal form (built here only by concatenating constants; pipeline/tick law)"
+	classL2 = "L2 language limit: the empty regex can only be written directly after =~ !~ = (elsewhere // starts a comment): an empty regex var is not used as a function argument (pipeline/tick law)"
+)
 
 const classK11 = "K11 parenthesised regex or star literal directly after 'lambda:', AND or OR (the formatter drops the parentheses; the lexer expects a binary operator there: '/' is division, '*' multiplication)"
 const classK6 = "K6 format stability: line breaks after binary operators creep one nesting level per pass (reaches a fixpoint later, layout only)"
